@@ -712,8 +712,12 @@ struct Digit {
                         const Char_T digit = content[offset];
 
                         if ((digit >= DigitUtils::DigitChar::Zero) && (digit <= DigitUtils::DigitChar::Nine)) {
-                            exponent *= SizeT32{10};
-                            exponent += SizeT32(digit - DigitUtils::DigitChar::Zero);
+                            if (exponent < SizeT32{100000000}) {
+                                // Anything bigger is out of range; do not let it wrap.
+                                exponent *= SizeT32{10};
+                                exponent += SizeT32(digit - DigitUtils::DigitChar::Zero);
+                            }
+
                             ++offset;
                             continue;
                         }
